@@ -1973,6 +1973,20 @@ Definition go_state_channel_parseModes (ch_lookup : go_map_string_nick) (ch_mode
   let '(modeargs, modeop, modestr, i, ch_modes, ch_nicks) := p27 in
   Ok (ch_modes, ch_nicks).
 
+(* net.JoinHostPort — a variable, as every stdlib function that is not transliterated *)
+Variable go_net_JoinHostPort : bytes -> bytes -> bytes.
+
+(* Conn.internalConnect_if_hasPort — client/connection.go *)
+Definition go_client_Conn_internalConnect_if_hasPort (conn_cfg_SSL : bool) (conn_cfg_Server : bytes) : res bytes :=
+  t1 <- go_client_hasPort conn_cfg_Server ;;
+  if negb t1 then
+    (if conn_cfg_SSL then
+      Ok (go_net_JoinHostPort conn_cfg_Server [54; 54; 57; 55]%N)
+    else
+      Ok (go_net_JoinHostPort conn_cfg_Server [54; 54; 54; 55]%N))
+  else
+    Ok conn_cfg_Server.
+
 End WithTracker.
 Arguments go_state_Tracker_Associate {go_state_Nick_rest go_state_Channel_rest ST} _.
 Arguments go_state_Tracker_ChannelModes {go_state_Nick_rest go_state_Channel_rest ST} _.
